@@ -1,11 +1,15 @@
 #!/bin/sh
-# usage: tools/run_all.sh [quick|thorough] [seed]   -- runs every registered check sequentially, prints one line each
+# usage: [VERIF_CHECKS="C01 C05"] tools/run_all.sh [quick|thorough] [seed]
+# runs the registered checks sequentially, prints one line each (plus the violation keys, if any)
 TIER=${1:-quick}; SEED=${2:-0}
+CHECKS=${VERIF_CHECKS:-"C01 C02 C03 C04 C05 C06 C07 C08 C09 C10 C11 C12 C13 C14 C15 C16 C17 C18 C19 C20"}
 cd "$(dirname "$0")/.."
-for p in C01 C02 C03 C04 C05 C06 C07 C08 C09 C10 C11 C12 C13 C14 C15 C16 C17 C18 C19 C20; do
+for p in $CHECKS; do
   t0=$(date +%s)
-  VERIF_SEED=$SEED /venv/bin/python -m vlib.check $p --tier $TIER > /tmp/verif_run_$p.log 2>&1
+  L=/tmp/verif_run_${TIER}_${SEED}_$p.log
+  VERIF_SEED=$SEED /venv/bin/python -m vlib.check $p --tier $TIER > $L 2>&1
   rc=$?
   t1=$(date +%s)
-  echo "$p rc=$rc $((t1-t0))s $(grep -E "^$p $TIER" /tmp/verif_run_$p.log | cut -c1-150) $(grep -c '^VIOLATION' /tmp/verif_run_$p.log) VIOLATION-lines $(grep -c '^KNOWN-FINDING' /tmp/verif_run_$p.log) KNOWN $(grep -E '^INCONCLUSIVE' /tmp/verif_run_$p.log | cut -c1-120)"
+  echo "$p rc=$rc $((t1-t0))s $(grep -E "^$p $TIER" $L | cut -c1-150) $(grep -c '^VIOLATION' $L) VIOLATION-lines $(grep -c '^KNOWN-FINDING' $L) KNOWN $(grep -E '^INCONCLUSIVE' $L | cut -c1-120)"
+  grep -E "violation-key|^  key=" $L | cut -c1-400 | head -12
 done
